@@ -236,6 +236,8 @@ def actions_for(op, menu):
     if "fail" in menu and op.cls in ("r", "w"):
         for e in FAIL_MENU.get(op.op, []):
             acts.append("fail:%d" % e)
+    if "logfail" in menu and op.cls == "log":
+        acts.append("fail:%d" % errno.EPIPE)      # stdout is a closed pipe (`breadlog ... | head -1`): the logger panics
     if "short" in menu and op.op == "write" and op.cls == "w" and op.len >= 2:
         acts.append("short")
     if "sig" in menu:
